@@ -1,0 +1,278 @@
+//go:build verif
+
+// Verification hooks (build tag "verif"). This file is only compiled when the
+// deterministic-simulation harness in /verif builds the package; the default
+// build uses the empty stubs of verif_off.go and behaves exactly as shipped.
+
+package kcp
+
+import (
+	"time"
+)
+
+// ---------------------------------------------------------------------------
+// clock
+// ---------------------------------------------------------------------------
+
+// VerifSetRefTime re-bases the millisecond clock read by the ARQ core.
+func VerifSetRefTime(t time.Time) { refTime = t }
+
+// VerifCurrentMs exposes the core's millisecond clock.
+func VerifCurrentMs() uint32 { return currentMs() }
+
+// verifTimerNow models what a real clock guarantees to a TimedSched worker: the
+// instant it observes after a timer expiry is strictly later than the expiry.
+// A discrete simulated clock delivers exactly the expiry instant, which makes
+// the worker re-arm a zero timer for ever.
+func verifTimerNow(t time.Time) time.Time {
+	time.Sleep(1)
+	return time.Now()
+}
+
+// ---------------------------------------------------------------------------
+// buffer pool observation
+// ---------------------------------------------------------------------------
+
+var (
+	// VerifPoolGet, when set, supplies the buffer for bufferPool.Get.
+	VerifPoolGet func() []byte
+	// VerifPoolPut, when set, receives every buffer passed to bufferPool.Put
+	// (after the capacity check); returning true means it took ownership.
+	VerifPoolPut func(buf []byte) bool
+)
+
+func verifPoolGet(bp *bufferPool) ([]byte, bool) {
+	if f := VerifPoolGet; f != nil && bp == defaultBufferPool {
+		return f(), true
+	}
+	return nil, false
+}
+
+func verifPoolPut(bp *bufferPool, buf []byte) bool {
+	if f := VerifPoolPut; f != nil && bp == defaultBufferPool {
+		return f(buf)
+	}
+	return false
+}
+
+// VerifPoolRecycle hands a buffer back to the package pool (the harness uses it
+// for buffers returned by the FEC decoder, as the session layer does).
+func VerifPoolRecycle(buf []byte) { defaultBufferPool.Put(buf) }
+
+// ---------------------------------------------------------------------------
+// yield points
+// ---------------------------------------------------------------------------
+
+// VerifYield, when set, is called at named lock-free points of the library.
+var VerifYield func(site string)
+
+func verifYield(site string) {
+	if f := VerifYield; f != nil {
+		f(site)
+	}
+}
+
+// ---------------------------------------------------------------------------
+// KCP core
+// ---------------------------------------------------------------------------
+
+// VerifKCPState is a copy of the core's scalar state and queue occupancies.
+type VerifKCPState struct {
+	Conv, Mtu, Mss, State                  uint32
+	SndUna, SndNxt, RcvNxt                 uint32
+	Ssthresh                               uint32
+	RxRttvar, RxSrtt                       int32
+	RxRto, RxMinrto                        uint32
+	SndWnd, RcvWnd, RmtWnd, Cwnd, Incr     uint32
+	Probe, TsProbe, ProbeWait              uint32
+	Interval, TsFlush, Nodelay, Updated    uint32
+	DeadLink                               uint32
+	Fastresend, Nocwnd, Stream             int32
+	SndQueue, RcvQueue, SndBuf, RcvBuf     int
+	AckList                                int
+	SndBufUnacked                          int
+	MaxXmit                                uint32
+	PeekSize                               int
+}
+
+// VerifState snapshots the core. The caller must hold whatever lock protects it.
+func (kcp *KCP) VerifState() VerifKCPState {
+	st := VerifKCPState{
+		Conv: kcp.conv, Mtu: kcp.mtu, Mss: kcp.mss, State: kcp.state,
+		SndUna: kcp.snd_una, SndNxt: kcp.snd_nxt, RcvNxt: kcp.rcv_nxt,
+		Ssthresh: kcp.ssthresh, RxRttvar: kcp.rx_rttvar, RxSrtt: kcp.rx_srtt,
+		RxRto: kcp.rx_rto, RxMinrto: kcp.rx_minrto,
+		SndWnd: kcp.snd_wnd, RcvWnd: kcp.rcv_wnd, RmtWnd: kcp.rmt_wnd, Cwnd: kcp.cwnd, Incr: kcp.incr,
+		Probe: kcp.probe, TsProbe: kcp.ts_probe, ProbeWait: kcp.probe_wait,
+		Interval: kcp.interval, TsFlush: kcp.ts_flush, Nodelay: kcp.nodelay, Updated: kcp.updated,
+		DeadLink: kcp.dead_link, Fastresend: kcp.fastresend, Nocwnd: kcp.nocwnd, Stream: kcp.stream,
+		SndQueue: kcp.snd_queue.Len(), RcvQueue: kcp.rcv_queue.Len(),
+		SndBuf: kcp.snd_buf.Len(), RcvBuf: kcp.rcv_buf.Len(),
+		AckList:  len(kcp.acklist),
+		PeekSize: kcp.PeekSize(),
+	}
+	for seg := range kcp.snd_buf.ForEach {
+		if seg.acked == 0 {
+			st.SndBufUnacked++
+		}
+		if seg.xmit > st.MaxXmit {
+			st.MaxXmit = seg.xmit
+		}
+	}
+	return st
+}
+
+// VerifFlush runs a full flush the way the session layer does and returns the
+// interval (ms) the core asks to be flushed again in.
+func (kcp *KCP) VerifFlush() uint32 { return kcp.flush(IKCP_FLUSH_FULL) }
+
+// VerifSetSeq moves a fresh core's sequence space: snd is the first sn it will
+// send, rcv the first sn it expects.
+func (kcp *KCP) VerifSetSeq(snd, rcv uint32) {
+	kcp.snd_una, kcp.snd_nxt, kcp.rcv_nxt = snd, snd, rcv
+}
+
+// VerifSetStream switches stream mode on a raw core.
+func (kcp *KCP) VerifSetStream(on bool) {
+	if on {
+		kcp.stream = 1
+	} else {
+		kcp.stream = 0
+	}
+}
+
+// ---------------------------------------------------------------------------
+// sessions and listeners
+// ---------------------------------------------------------------------------
+
+// VerifWithLock runs f on the session's core under the session mutex.
+func (s *UDPSession) VerifWithLock(f func(k *KCP)) {
+	s.mu.Lock()
+	defer s.mu.Unlock()
+	f(s.kcp)
+}
+
+// VerifReadable reports the carry-over bytes a Read would return first and the
+// size of the next message in the core (-1 if none).
+func (s *UDPSession) VerifReadable() (carry int, peek int) {
+	s.mu.Lock()
+	defer s.mu.Unlock()
+	return len(s.bufptr), s.kcp.PeekSize()
+}
+
+// VerifFECInfo describes the session's FEC decoder.
+type VerifFECInfo struct {
+	Present            bool
+	Data, Parity       int
+	ShouldTune         bool
+	ShardSets, Held    int
+	EncPresent         bool
+	EncData, EncParity int
+	EncNext            uint32
+}
+
+func (dec *fecDecoder) verifInfo(fi *VerifFECInfo) {
+	if dec == nil {
+		return
+	}
+	fi.Present = true
+	fi.Data, fi.Parity, fi.ShouldTune = dec.dataShards, dec.parityShards, dec.shouldTune
+	fi.ShardSets = len(dec.shardSet)
+	for _, sh := range dec.shardSet {
+		fi.Held += len(sh.elements)
+	}
+}
+
+// VerifFEC reports the effective FEC parameters of the session.
+func (s *UDPSession) VerifFEC() (fi VerifFECInfo) {
+	s.mu.Lock()
+	defer s.mu.Unlock()
+	s.fecDecoder.verifInfo(&fi)
+	if s.fecEncoder != nil {
+		fi.EncPresent = true
+		fi.EncData, fi.EncParity, fi.EncNext = s.fecEncoder.dataShards, s.fecEncoder.parityShards, s.fecEncoder.next
+	}
+	return
+}
+
+// VerifSetFECNext positions the session's FEC encoder in its id space. Only
+// meaningful before traffic; id must be a multiple of the group size.
+func (s *UDPSession) VerifSetFECNext(id uint32) {
+	s.mu.Lock()
+	defer s.mu.Unlock()
+	if s.fecEncoder != nil {
+		s.fecEncoder.next = id % s.fecEncoder.paws
+	}
+}
+
+// VerifHeaderSize is the number of bytes the session puts in front of a KCP frame.
+func (s *UDPSession) VerifHeaderSize() int { return s.headerSize }
+
+// VerifPostQueue is the number of packets waiting for post-processing.
+func (s *UDPSession) VerifPostQueue() int { return len(s.chPostProcessing) }
+
+// VerifSessionKeys lists the listener's session table keys.
+func (l *Listener) VerifSessionKeys() []string {
+	l.sessionLock.RLock()
+	defer l.sessionLock.RUnlock()
+	keys := make([]string, 0, len(l.sessions))
+	for k := range l.sessions {
+		keys = append(keys, k)
+	}
+	return keys
+}
+
+// VerifBacklog is the number of sessions waiting to be accepted and the capacity.
+func (l *Listener) VerifBacklog() (n, capacity int) { return len(l.chAccepts), cap(l.chAccepts) }
+
+// ---------------------------------------------------------------------------
+// FEC codecs driven alone
+// ---------------------------------------------------------------------------
+
+// VerifFECEncoder wraps the package's FEC encoder.
+type VerifFECEncoder struct{ enc *fecEncoder }
+
+// VerifNewFECEncoder builds an encoder; nil if the parameters are refused.
+func VerifNewFECEncoder(dataShards, parityShards, offset int) *VerifFECEncoder {
+	e := newFECEncoder(dataShards, parityShards, offset)
+	if e == nil {
+		return nil
+	}
+	return &VerifFECEncoder{e}
+}
+
+// Encode seals b (header space reserved in front) and returns parity packets.
+func (e *VerifFECEncoder) Encode(b []byte, rto uint32) [][]byte { return e.enc.encode(b, rto) }
+
+// EncodeOOB seals b as an out-of-band packet.
+func (e *VerifFECEncoder) EncodeOOB(b []byte) { e.enc.encodeOOB(b) }
+
+// Next is the id the next packet will carry.
+func (e *VerifFECEncoder) Next() uint32 { return e.enc.next }
+
+// SetNext positions the encoder in its id space.
+func (e *VerifFECEncoder) SetNext(id uint32) { e.enc.next = id % e.enc.paws }
+
+// Paws is the encoder's wrap value.
+func (e *VerifFECEncoder) Paws() uint32 { return e.enc.paws }
+
+// VerifFECDecoder wraps the package's FEC decoder.
+type VerifFECDecoder struct{ dec *fecDecoder }
+
+// VerifNewFECDecoder builds a decoder; nil if the parameters are refused.
+func VerifNewFECDecoder(dataShards, parityShards int) *VerifFECDecoder {
+	d := newFECDecoder(dataShards, parityShards)
+	if d == nil {
+		return nil
+	}
+	return &VerifFECDecoder{d}
+}
+
+// Decode feeds one FEC packet (from the seqid field on) to the decoder.
+func (d *VerifFECDecoder) Decode(in []byte) [][]byte { return d.dec.decode(fecPacket(in)) }
+
+// Info reports the decoder's effective parameters and holdings.
+func (d *VerifFECDecoder) Info() (fi VerifFECInfo) {
+	d.dec.verifInfo(&fi)
+	return
+}
